@@ -1014,6 +1014,9 @@ def rotate_shift_mask_simplifier(a, b):
     bitwidth = lshift_ + rshift_
     if bitwidth not in (32, 64):
         return None
+    # the pattern is a rotation only if the two shift amounts add up to the operand's width
+    if a_00.size() != bitwidth:
+        return None
 
     # is the second argument a mask?
     # Note: the following check can be further loosen if we want to support more masks.
